@@ -11,7 +11,7 @@ from ..core import register_machine, Violation
 from ..seams import CTX, HarnessError
 from ..util import cjson, h64, exc_class
 from .. import pools
-from .base import FormatMachine, Slot, VALID, INVALID, UNSPEC, first_diff, diff_key
+from .base import FormatMachine, Slot, VALID, INVALID, UNSPEC, first_diff, diff_key, dec
 from .ci import compose_validity, COMPOSE_FIELDS
 
 IMG_FIELDS = ["path", "mtime", "size", "volume_id", "type", "format", "arch", "disc_number", "disc_count",
@@ -246,8 +246,8 @@ class IMMachine(FormatMachine):
         s = self.slot(op)
         if s is None:
             return "noop"
-        setattr(s.obj.compose, op["field"], op["value"])
-        s.model["compose"][op["field"]] = op["value"]
+        setattr(s.obj.compose, op["field"], dec(op["value"]))
+        s.model["compose"][op["field"]] = dec(op["value"])
         return "ok"
 
     def op_img_new(self, op):
@@ -270,8 +270,8 @@ class IMMachine(FormatMachine):
         iid = str(op.get("iid"))
         if s is None or iid not in s.pool:
             return "noop"
-        setattr(s.pool[iid], op["field"], copy.deepcopy(op["value"]))
-        s.model["imgs"][iid][op["field"]] = copy.deepcopy(op["value"])
+        setattr(s.pool[iid], op["field"], copy.deepcopy(dec(op["value"])))
+        s.model["imgs"][iid][op["field"]] = copy.deepcopy(dec(op["value"]))
         return "ok"
 
     def op_img_remove(self, op):
@@ -463,7 +463,9 @@ class IMMachine(FormatMachine):
         self.count("C16", ["add_checksum", kind, bool(rec), raised is not None])
         # never silently replaced
         for t, v in before.items():
-            if v and after.get(t) != v:
+            # an entry that exists is never modified by add_checksum - whether it raises or not (a recorded EMPTY value
+            # counts: the pinned behaviour refuses to put another value over it, a silent fill-in would be a replacement)
+            if after.get(t, v) != v or (t not in after):
                 raise Violation("C16", "C16.recorded_checksum_never_replaced", "image-checksum-replaced/%s" % kind,
                                 {"type": t, "was": v, "now": after.get(t), "raised": raised is not None})
         if kind == "conflict" and rec:
@@ -578,7 +580,8 @@ class IMMachine(FormatMachine):
         v, a, i = flat[op.get("pick", 0) % len(flat)]
         dup = copy.deepcopy(cells[v][a][i])
         dup["checksums"] = dict((k, val + "0") for k, val in dup["checksums"].items())
-        dup["path"] = dup["path"] + ".dup"
+        if not op.get("same_path"):
+            dup["path"] = dup["path"] + ".dup"
         where = op.get("where", "same-cell")
         if where == "same-cell":
             cells[v][a].append(dup)
@@ -596,7 +599,7 @@ class IMMachine(FormatMachine):
         d["expected"] = None
         d["must"] = "reject" if vtuple(ver) >= (1, 1) else "accept"
         d["must_prop"] = "C09"
-        d["must_key"] = "colliding-pair/v%s/%s" % (ver, where)
+        d["must_key"] = "colliding-pair/v%s/%s%s" % (ver, where, "/same-path" if op.get("same_path") else "")
         return "injected:" + d["must"]
 
     def op_im_downgrade(self, op):
